@@ -11,6 +11,9 @@ c-shares, bit for bit.
 Model: `Model/Gmw.lean` (gmw/{bitvec,triples,network,peer}.go), levels from
 `Model/Levels.lean` (`Circuit.AssignLevels(TargetGMW)`).  Quantification of the
 theorems: every number of parties (`sizes.length ≥ 1`; 2..5 are run), every
+HISTORY of `Run` calls on one connected Network (`Model/GmwHist.lean`: pool
+position, `nw.triples` and the never-reset `nw.wires` carried from call to
+call; `C10_history`), every
 single-assignment circuit without OR gates (the compiler emits XOR/XNOR/AND
 only; `run` returns `gate OR not supported` otherwise), every input, every
 input-sharing randomness, every local triple randomness and all bit-COT
@@ -24,6 +27,7 @@ presentation of the output bits as values, the same function in `Network.Run`
 and `Circuit.Compute`) is C02/C13's.
 -/
 import MpcVerif.Proofs.GmwRun
+import MpcVerif.Proofs.GmwHist
 import MpcVerif.Model.Iknp
 
 namespace Mpc
@@ -250,6 +254,153 @@ example : needW (blocks exGmw) = 2 ∧ schedule exGmw = exGmw.gates := by decide
 theorem C10_concrete :
     runOuts (run exGmw [1, 1, 1] exX exRnd exPools) = some [[true, true], [true, true], [true, true]] ∧
     exGmw.compute (inputBits [1, 1, 1] exX) = [true, true] := by
+  decide +kernel
+
+/-! ### Histories: consecutive `Run` calls on one connected Network
+
+A `gmw.Network` is made to be reused (the triple pool persists over runs).
+"Every circuit, all inputs" therefore quantifies over every call of every
+history of calls on one Network, not only over the first call of a fresh
+one.  `Model/GmwHist.lean` carries what the Network keeps between two calls
+(pool position, `nw.triples`, the wire store that is never reset). -/
+
+/-- The first call on a fresh Network is `Gmw.run`: the history model
+extends the single-run model. -/
+theorem C10_run_is_first_call (c : Circuit) (sizes : List Nat) (x : Nat → Nat) (rnd : Nat → Nat → Nat)
+    (pools : Nat → Triples) :
+    run c sizes x rnd pools = runFrom c sizes x rnd (fresh sizes.length pools) ∧
+    runHist [⟨c, sizes, x, rnd⟩] (fresh sizes.length pools) =
+      (match run c sizes x rnd pools with
+       | .ok ps outs => [.ok ps outs]
+       | r => [r]) := by
+  have h := run_eq_runFrom c sizes x rnd pools
+  refine ⟨h, ?_⟩
+  simp only [runHist, ← h]
+  cases run c sizes x rnd pools <;> rfl
+
+example : runOuts (run exGmw [1, 1, 1] exX exRnd exPools) =
+    runOuts (runFrom exGmw [1, 1, 1] exX exRnd (fresh 3 exPools)) := by
+  rw [(C10_run_is_first_call exGmw [1, 1, 1] exX exRnd exPools).1]; rfl
+
+/-- **One `Run` from ANY state a Network can be in between two calls**: ids
+in order, `nw.triples` cleared, `L` valid triple words in every pool,
+ARBITRARY stale wire stores (of one common size `M`, whatever the earlier
+circuits were).  For every single-assignment circuit without OR gates, all
+inputs, all sharing randomness, `needW ≤ L`: the call returns; the state after
+it is again such a state, with `needW` words fewer – the FIRST `needW` words of
+every pool, in stream order; on every wire the circuit defines the shares
+reconstruct to `plainEval` (stale bits do not leak into defined wires); when
+the output wires are defined, every party's output is `Circuit.compute` of
+THIS circuit on THIS call's inputs. -/
+theorem C10_run_from_state (c : Circuit) (sizes : List Nat) (x : Nat → Nat) (rnd : Nat → Nat → Nat)
+    (ps : List Party) (L M : Nat) (hok : RunOK c sizes) (hb : Between sizes.length L M ps)
+    (hL : needW (blocks c) ≤ L) :
+    ∃ ps' outs, runFrom c sizes x rnd ps = .ok ps' outs ∧
+      Between sizes.length (L - needW (blocks c)) (max M c.numWires) ps' ∧ outs.length = sizes.length ∧
+      (∀ w, c.defined w = true → recon ps' w = (c.plainEval (inputBits sizes x)).get w) ∧
+      (c.outputsDefined = true → ∀ o ∈ outs, o = c.compute (inputBits sizes x)) ∧
+      poolViews ps' = (poolViews ps).map (·.drop (needW (blocks c))) := by
+  obtain ⟨ps', outs, h1, h2, h3, h4, h5, h6, h7⟩ :=
+    runFrom_correct c sizes x rnd ps (inputBits sizes x) L M hok (inputsOf_inputBits sizes x) hb.st hb.wsz hL
+  exact ⟨ps', outs, h1, ⟨h2, h3⟩, h4, h5, h6, h7⟩
+
+/-- **C10_history.**  For every number of parties `n`, every list of calls
+`(circuit, inputs, sharing randomness)` – same circuit again, another circuit
+of the same shape / AND depth / level widths, deeper, shallower, wider,
+narrower, without AND gates: no relation between consecutive circuits is
+assumed – each a single-assignment `n`-party circuit without OR gates whose
+output wires are defined, and pools holding at least the words of the whole
+history: EVERY call returns and EVERY party's output of call `i` is
+`compute` of circuit `i` on the inputs of call `i`; the share invariant holds
+on all wires circuit `i` defines; after call `i` every party's pool is the
+initial pool minus the first `Σ_{j ≤ i} needW` words (lock-step over the fold
+of runs).  By induction over the history with `C10_run_from_state`. -/
+theorem C10_history (n : Nat) (ks : List Call) (pools : Nat → Triples) (L : Nat)
+    (hks : ∀ k ∈ ks, CallOK n k) (hpools : PoolsValid n L pools) (hL : needHist ks ≤ L) :
+    HistOK n ks L ((List.range n).map fun p => (pools p).view) (runHist ks (fresh n pools)) := by
+  have h := hist_correct n ks (fresh n pools) L 0 hks (between_fresh n L pools hpools) hL
+  have e : poolViews (fresh n pools) = (List.range n).map fun p => (pools p).view := by
+    simp [poolViews, fresh, List.map_map, Function.comp]
+  rw [e] at h
+  exact h
+
+/-- Offline phase and a whole history composed. -/
+theorem C10_history_offline_online (n : Nat) (ks : List Call) (bs : List (Nat × BatchIn))
+    (hks : ∀ k ∈ ks, CallOK n k) (hcot : ∀ b ∈ bs, CotCorr n b.1 b.2) (hL : needHist ks ≤ (bs.map (·.1)).sum) :
+    HistOK n ks (bs.map (·.1)).sum ((List.range n).map fun p => (dealt n bs p).view)
+      (runHist ks (fresh n (dealt n bs))) :=
+  C10_history n ks _ _ hks (C10_triples_valid_pool n bs hcot) hL
+
+/-! #### Non-vacuity: a concrete three-party history -/
+
+/-- same I/O, same number of gates, same AND depth and level widths as
+`exGmw`, other wiring: `w3 = b & c; w4 = w3 ^ a; w5 = !w4; w6 = w5 & b` -/
+def exGmw2 : Circuit :=
+  { numWires := 7, nIn := 3, nOut := 2,
+    gates := [⟨.and, 1, 2, 3⟩, ⟨.xor, 3, 0, 4⟩, ⟨.inv, 4, 0, 5⟩, ⟨.and, 5, 1, 6⟩] }
+
+/-- no AND gate, two parties' worth of wires fewer: `w3 = a xnor b; w4 = w3 ^ c` -/
+def exGmw0 : Circuit :=
+  { numWires := 5, nIn := 3, nOut := 1, gates := [⟨.xnor, 0, 1, 3⟩, ⟨.xor, 3, 2, 4⟩] }
+
+def exPools6 (p : Nat) : Triples :=
+  match p with
+  | 0 => Triples.ofList [(20#64, 27#64, 36#64), (60#64, 26#64, 37#64), (9#64, 4#64, 25#64), (25#64, 15#64, 3#64),
+      (41#64, 5#64, 62#64), (3#64, 35#64, 14#64)]
+  | 1 => Triples.ofList [(4#64, 27#64, 2#64), (52#64, 3#64, 35#64), (34#64, 52#64, 54#64), (6#64, 36#64, 8#64),
+      (23#64, 7#64, 18#64), (37#64, 60#64, 26#64)]
+  | _ => Triples.ofList [(3#64, 14#64, 36#64), (58#64, 40#64, 54#64), (32#64, 40#64, 39#64), (13#64, 37#64, 9#64),
+      (2#64, 60#64, 16#64), (5#64, 3#64, 20#64)]
+
+def exX2 (p : Nat) : Nat := if p = 0 then 0 else 1
+
+/-- `exGmw`, then `exGmw2` (same shape, other gates) on other inputs, then the
+AND-free `exGmw0`, then `exGmw` again -/
+def exHist : List Call :=
+  [⟨exGmw, [1, 1, 1], exX, exRnd⟩, ⟨exGmw2, [1, 1, 1], exX2, fun p q => exRnd q p⟩,
+   ⟨exGmw0, [1, 1, 1], exX, exRnd⟩, ⟨exGmw, [1, 1, 1], exX2, exRnd⟩]
+
+def histOuts (rs : List RunResult) : List (Option (List (List Bool))) := rs.map runOuts
+
+example : ∀ k ∈ exHist, CallOK 3 k := by
+  have ok : ∀ c : Circuit, SSA c.numWires c.gates c.inputDefined → (∀ g ∈ c.gates, g.op ≠ .or) → c.nIn = 3 →
+      3 ≤ c.numWires → c.outputsDefined = true → ∀ x r, CallOK 3 ⟨c, [1, 1, 1], x, r⟩ :=
+    fun c h1 h2 h3 h4 h5 x r => ⟨⟨h1, h2, Nat.succ_pos 2, h3, by show c.nIn ≤ c.numWires; omega⟩, rfl, h5⟩
+  intro k hk
+  simp only [exHist, List.mem_cons, List.mem_nil_iff, or_false] at hk
+  rcases hk with rfl | rfl | rfl | rfl
+  · exact ok exGmw ⟨by decide, by decide, by decide⟩ (by decide) rfl (by decide) (by decide) _ _
+  · exact ok exGmw2 ⟨by decide, by decide, by decide⟩ (by decide) rfl (by decide) (by decide) _ _
+  · exact ok exGmw0 ⟨by decide, by decide, by decide⟩ (by decide) rfl (by decide) (by decide) _ _
+  · exact ok exGmw ⟨by decide, by decide, by decide⟩ (by decide) rfl (by decide) (by decide) _ _
+
+example : PoolsValid 3 6 exPools6 := by
+  refine ⟨fun p hp => ?_, fun k hk => ?_⟩
+  · match p, hp with
+    | 0, _ => exact ⟨by decide, rfl⟩
+    | 1, _ => exact ⟨by decide, rfl⟩
+    | 2, _ => exact ⟨by decide, rfl⟩
+  · match k, hk with
+    | 0, _ => decide +kernel
+    | 1, _ => decide +kernel
+    | 2, _ => decide +kernel
+    | 3, _ => decide +kernel
+    | 4, _ => decide +kernel
+    | 5, _ => decide +kernel
+
+example : needHist exHist = 6 := by decide +kernel
+
+/-- the executed history model: every call gives every party `compute` of ITS
+circuit on ITS inputs – and that is not what the first circuit's gates give on
+the second call's inputs (`exGmw` and `exGmw2` differ there), so a Network that
+kept evaluating the gates of its first circuit is excluded by the theorem -/
+theorem C10_history_concrete :
+    histOuts (runHist exHist (fresh 3 exPools6)) =
+      [some [[true, true], [true, true], [true, true]], some [[false, false], [false, false], [false, false]],
+       some [[true], [true], [true]], some [[true, false], [true, false], [true, false]]] ∧
+    exHist.map (fun k => k.c.compute (inputBits k.sizes k.x)) =
+      [[true, true], [false, false], [true], [true, false]] ∧
+    exGmw.compute (inputBits [1, 1, 1] exX2) ≠ exGmw2.compute (inputBits [1, 1, 1] exX2) := by
   decide +kernel
 
 end Mpc
